@@ -37,11 +37,13 @@ def make_scripts(tier):
     return items
 
 
-def compare(a, b, okeys):
+def compare(a, b, okeys, seq=False):
     """a = unoptimised, b = optimised; returns None if equal else signature."""
     ra, rb = U.decode(a), U.decode(b)
     if U.mset(ra) != U.mset(rb):
         return "rows-differ"
+    if seq and ra != rb:
+        return "order-differs"
     if okeys:
         ka = [tuple(r[i] for i, _ in okeys) for r in ra]
         kb = [tuple(r[i] for i, _ in okeys) for r in rb]
@@ -84,7 +86,7 @@ def run(tier, seed):
             if sb != "rows":
                 chk.fail(cid, "optimised-fails:" + sb.split(":")[0] + "@" + x["feat"][0], c, {"unoptimised": a, "optimised": b})
                 continue
-            sig = compare(a, b, x["okeys"]) if x["det"] else (None if len(a["rows"]) == len(b["rows"]) else "rows-differ")
+            sig = compare(a, b, x["okeys"], qgen.seq_applies(x, meta["db"])) if qgen.determined(x, meta["db"]) else (None if len(a["rows"]) == len(b["rows"]) else "rows-differ")
             if sig:
                 chk.fail(cid, sig + "@" + x["feat"][0], c, {"unoptimised": a["rows"], "optimised": b["rows"]})
             else:
